@@ -365,7 +365,14 @@ func hAssume(e *Exec, st *State, fv FuncV, a []Value, cc *ssa.CallCommon) Value 
 	if v, ok := st.decided.get(c.id); ok && v == 1 {
 		return nil
 	}
-	r := e.feasible(st, c)
+	if st.model != nil {
+		if v, ok := evalTerm(c, st.model); ok && v == 1 {
+			st.pc = append(st.pc, c)
+			st.decided.m[c.id] = 1
+			return nil
+		}
+	}
+	r, m := e.feasibleM(st, c)
 	if r == Unsat {
 		panic(deadSignal{"assumption infeasible"})
 	}
@@ -373,6 +380,7 @@ func hAssume(e *Exec, st *State, fv FuncV, a []Value, cc *ssa.CallCommon) Value 
 		st.imprecise = true
 	}
 	st.pc = append(st.pc, c)
+	st.model = m
 	st.decided.m[c.id] = 1
 	return nil
 }
@@ -441,7 +449,7 @@ func (e *Exec) checkAssert(st *State, c *Term, msg string) {
 		if e.feasible(st, c) == Unsat {
 			panic(deadSignal{"assertion always fails"})
 		}
-		st.pc = append(st.pc, c)
+		e.extendPC(st, c)
 	} else if r == Unsat && e.ob.Lemmas {
 		// a proven assertion is a lemma for the rest of the path
 		st.pc = append(st.pc, c)
